@@ -325,6 +325,8 @@ def check(c, ctx):
         try:
             res = apply_op(c["op"], a, b)
             raised = None
+        except runner.Found:
+            raise
         except Exception as ex:
             res, raised = None, ex
         if exp == "raise":
@@ -427,6 +429,8 @@ def check(c, ctx):
                         for k, x in r[2].items():
                             tot[k] = tot.get(k, 0.0) + x
                 exp, res = ("hourly", dim, tot, ra[3]), sum([a] + others)
+        except runner.Found:
+            raise
         except Exception as ex:
             fail("unexpected_error", "%s(%s) raised %s: %s" % (h, c, type(ex).__name__, ex))
             ctx.case(c, nontrivial(c), labels)
@@ -451,6 +455,8 @@ def check(c, ctx):
         for op in ("+", "*"):
             try:
                 r1, r2 = apply_op(op, a, b), apply_op(op, b, a)
+            except runner.Found:
+                raise
             except Exception as ex:
                 fail("unexpected_error", "%s %s %s raised %s: %s" % (c["a"], op, c["b"], type(ex).__name__, ex))
                 continue
